@@ -35,3 +35,9 @@ let () =
 let () =
   register "tw.wfb" (function [s] -> if TextTapeWf.tape_wfb (Ttglue.tape_of_string s) then "y" else "n" | _ -> "BADCASE")
 (* <<< a_c06 *)
+
+(* >>> a_c01 (C01): a chain of parses into one tape = each document parsed on its own (the model has no tape argument) *)
+let () =
+  register "tt.chain" (fun docs ->
+      Stdlib.String.concat " | " (Stdlib.List.map (fun h -> show_parse (TextTape.parse (bytes_of_hex h))) docs))
+(* <<< a_c01 *)
